@@ -9,6 +9,9 @@
 (* the selector still explores it, unless link-visit-once is on and the    *)
 (* link was seen before; every load spends one unit of the link budget.    *)
 (* The root is loaded by the caller and is never in `seen`.                *)
+(* opt.miss is a set of nodes whose blocks are absent from the store: a    *)
+(* lenient walker (car get-dag without --strict) skips such a link, a      *)
+(* strict one fails (err).                                                 *)
 (*   sel: [kind |-> "all"] | [kind |-> "depth", d |-> n]   (n node levels) *)
 (*      | [kind |-> "path", p |-> <<k1, k2, ..>>]  a field path: from a    *)
 (*        node at level i only its k(i+1)-th link is followed; the node    *)
@@ -48,6 +51,8 @@ Explores(sel, level) ==      \* are (some) links of a node at this level followe
 (* state threaded through the walk: [loads, seen, budget, err] *)
 RECURSIVE Walk(_, _, _, _, _, _)
 RECURSIVE WalkKids(_, _, _, _, _, _, _)
+Miss == IF "miss" \in DOMAIN opt THEN opt.miss ELSE {}
+Strict == IF "strict" \in DOMAIN opt THEN opt.strict ELSE FALSE
 
 Walk(K, n, level, sel, once, st) ==
   IF st.err \/ ~Explores(sel, level) THEN st
@@ -61,6 +66,9 @@ WalkKids(K, ks, i, level, sel, once, st) ==
   IF st.err \/ i > Len(ks) THEN st
   ELSE LET c == ks[i] IN
        IF once /\ c \in st.seen THEN WalkKids(K, ks, i + 1, level, sel, once, st)
+       ELSE IF c \in Miss
+         THEN IF Strict THEN [st EXCEPT !.err = TRUE]
+              ELSE WalkKids(K, ks, i + 1, level, sel, once, [st EXCEPT !.seen = @ \cup {c}])    \* skipped: nothing loaded, nothing below it
        ELSE IF st.budget = 0 THEN [st EXCEPT !.err = TRUE]
        ELSE LET st1 == [loads |-> Append(st.loads, c), seen |-> st.seen \cup {c},
                         budget |-> IF st.budget < 0 THEN st.budget ELSE st.budget - 1, err |-> FALSE]
